@@ -318,6 +318,30 @@ func evaluate(c scase, verbose bool) []finding {
 			fmt.Printf("  %q: %T %x\n", id, r, b)
 		}
 	}
+	// the online phase once more with key material the presignature was NOT made for: every party holds the
+	// BIP-32 child 5 of its configuration and the presignature of the parent key.  The session may fail
+	// (and should); whatever it returns must be a valid signature under the key of the configuration it
+	// was started with.
+	if u.Proto == "cmp" && variant == "presign-online" && len(signers) > 1 {
+		if d, err := ks.Derived(5); err == nil {
+			sess.OwnFirst = c.Rev
+			sp := d.SignSpec("presign-online", signers, msg, pre)
+			o2 := keymat.Run(sp, *vkit.Seed, "c01|"+c.key()+"|online-on-child", c.Rev)
+			if o2.Panic != "" {
+				fs = append(fs, finding{"panic|" + pn + "|online-on-child", where + ": online phase with the parent's presignature on derived configurations: " + o2.Panic})
+			}
+			for _, id := range signers {
+				r, ok := o2.Results[id]
+				if !ok || r == nil {
+					continue
+				}
+				if err := oracle.CheckSignature(r, d.Pub, msg); err != nil {
+					b, _ := oracle.SigBytes(r)
+					fs = append(fs, mk("invalid-signature", "presignature-of-another-key", fmt.Sprintf("%s: the online phase was started with the BIP-32 child 5 of every configuration and the presignature made for the parent key; %q returns %x, which does not verify under the child key %x: %v", where, id, b, d.Pub.Compressed(), err))...)
+				}
+			}
+		}
+	}
 	return fs
 }
 
